@@ -43,17 +43,22 @@ ExportSeqs ==
                   re-exports the package deep as a module  ('from . import deep').
    "samenameboth" - like "samename", but one package imports both: declaration 1 by its name and declaration 2 under an alias (either order);
                   the alias belongs to declaration 2 only (reported as declone / decltwo).
+   "privpkginit" - declaration 1 is written into the package file of a private sub-package (sub/_2d/__init__.py; the directory name sorts
+                  before "__init__.py") and is re-exported by its parent package, by the root or by the sibling package.
+   "privpkgtop" - the same with the private package beside the re-exporting packages (<root>/_2d next to <root>/sub and <root>/other).
    "pkgnamed"   - the package sub/deep is itself called like declaration 1 (reported as "deep"), which it re-exports from its private module
                   _moda; declaration 2 is written into the package file of that package.
    "genericattr" - class 1 is generic; its class attribute `content` and its constructor-assigned attribute `item` are typed by the type variable
                   (and `plain` by int): attributes are declarations like any other.
    "privreexp"  - like "distinct", but the sibling package (at = 3) is a private one (<root>/_other; reported as "other"): a public declaration
                   that only a private package re-exports is still emitted once, in its module's stub or in that package's. *)
-Variants == {"pkgnamed", "samenameboth", "genericattr", "privreexp", "distinct", "samename", "suffix", "samemodule", "initdecl", "sharedbase", "suffixalias", "stdlibname", "exccls", "pkgmodreexp", "privtwin", "privtwindeep", "newtype"}
+Variants == {"privpkgtop", "privpkginit", "pkgnamed", "samenameboth", "genericattr", "privreexp", "distinct", "samename", "suffix", "samemodule", "initdecl", "sharedbase", "suffixalias", "stdlibname", "exccls", "pkgmodreexp", "privtwin", "privtwindeep", "newtype"}
 Universe == { [kind |-> k, exports |-> e, variant |-> "distinct"] : k \in Kinds, e \in ExportSeqs }
              \cup { [kind |-> k, exports |-> << Exp(a, 1, x) >>, variant |-> v] : k \in Kinds, a \in {0, 1, 2}, x \in {"", "AliasA"}, v \in {"samename", "suffix"} }
              \cup { [kind |-> k, exports |-> << Exp(a, 1, "") >>, variant |-> "samemodule"] : k \in Kinds, a \in {0, 1, 3} }
              \cup { [kind |-> k, exports |-> << >>, variant |-> "initdecl"] : k \in Kinds }
+             \cup { [kind |-> k, exports |-> << Exp(a, 1, x) >>, variant |-> "privpkgtop"] : k \in Kinds, a \in {0, 1, 3}, x \in {"", "AliasA"} }
+             \cup { [kind |-> k, exports |-> << Exp(a, 1, x) >>, variant |-> "privpkginit"] : k \in Kinds, a \in {0, 1, 3}, x \in {"", "AliasA"} }
              \cup { [kind |-> k, exports |-> << Exp(2, 1, "") >>, variant |-> "pkgnamed"] : k \in Kinds }
              \cup { [kind |-> k, exports |-> e, variant |-> "samenameboth"] : k \in Kinds, e \in { << Exp(a, 1, ""), Exp(a, 2, "AliasA") >> : a \in {0, 1} } \cup { << Exp(0, 2, "AliasA"), Exp(0, 1, "") >> } }
              \cup { [kind |-> "class", exports |-> e, variant |-> "genericattr"] : e \in { << >>, << Exp(0, 1, "") >> } }
@@ -78,10 +83,10 @@ ExposedNames(s, at, t) ==
                                        /\ \A m \in (j + 1)..Len(s.exports) : ~(s.exports[m].at = at /\ BoundName(s.exports[m]) = BoundName(s.exports[j])) } }
 PublicDecl(s, t) ==
   IF s.variant \in {"privtwin", "privtwindeep"} THEN t = 1 ELSE
-  IF s.variant \in {"distinct", "samemodule", "initdecl", "sharedbase", "suffixalias", "stdlibname", "exccls", "pkgmodreexp", "newtype", "privreexp", "genericattr", "samenameboth", "pkgnamed"} THEN TRUE
+  IF s.variant \in {"distinct", "samemodule", "initdecl", "sharedbase", "suffixalias", "stdlibname", "exccls", "pkgmodreexp", "newtype", "privreexp", "genericattr", "samenameboth", "pkgnamed", "privpkginit", "privpkgtop"} THEN TRUE
   ELSE t = 1 /\ \E a \in Ats : Exposes(s, a, 1)       \* private modules: public only through the re-export, and only the re-exported declaration
 ModHomeV(s, t) == IF s.variant = "privtwin" THEN (IF t = 1 THEN <<"sub", "deep", "modsame">> ELSE <<"_hid", "modsame">>)
-                  ELSE IF s.variant = "privtwindeep" THEN (IF t = 1 THEN <<"sub", "deep", "modsame">> ELSE <<"sub", "deep", "_hid", "modsame">>) ELSE IF s.variant = "pkgmodreexp" THEN (IF t = 1 THEN <<"sub", "deep">> ELSE <<"sub">>) ELSE IF s.variant = "stdlibname" /\ t = 2 THEN <<"sub", "logging">> ELSE IF s.variant = "sharedbase" THEN <<"sub", "deep", "moda">> ELSE IF s.variant = "initdecl" /\ t = 1 THEN <<"sub", "deep">> ELSE IF s.variant = "pkgnamed" /\ t = 2 THEN <<"sub", "deep">> ELSE IF s.variant = "samemodule" THEN (IF t = 1 THEN <<"sub", "deep", "modsame">> ELSE <<"sub", "modsame">>) ELSE ModHome(t)
+                  ELSE IF s.variant = "privtwindeep" THEN (IF t = 1 THEN <<"sub", "deep", "modsame">> ELSE <<"sub", "deep", "_hid", "modsame">>) ELSE IF s.variant = "pkgmodreexp" THEN (IF t = 1 THEN <<"sub", "deep">> ELSE <<"sub">>) ELSE IF s.variant = "stdlibname" /\ t = 2 THEN <<"sub", "logging">> ELSE IF s.variant = "sharedbase" THEN <<"sub", "deep", "moda">> ELSE IF s.variant = "initdecl" /\ t = 1 THEN <<"sub", "deep">> ELSE IF s.variant = "pkgnamed" /\ t = 2 THEN <<"sub", "deep">> ELSE IF s.variant = "privpkginit" /\ t = 1 THEN <<"sub", "_2d">> ELSE IF s.variant = "privpkgtop" /\ t = 1 THEN <<"_2d">> ELSE IF s.variant = "samemodule" THEN (IF t = 1 THEN <<"sub", "deep", "modsame">> ELSE <<"sub", "modsame">>) ELSE ModHome(t)
 AllowedHomes(s, t) == { ModHomeV(s, t) } \cup { PkgPath(at) : at \in { a \in Ats : Exposes(s, a, t) } }
 AllowedNames(s, t) == { DName(t) } \cup UNION { ExposedNames(s, a, t) : a \in Ats }
 Targets(s) == {1} \cup { s.exports[j].tgt : j \in 1..Len(s.exports) }
@@ -105,7 +110,7 @@ Live_Done == <>(pc = "done")
 Shape(s) == (IF Len(s.exports) = 0 THEN (IF s.variant = "initdecl" THEN "declared-in-package-file" ELSE "not-re-exported") ELSE IF Len(s.exports) = 1 THEN "single" ELSE
              IF s.exports[1].tgt = s.exports[2].tgt THEN (IF s.exports[1].at = s.exports[2].at THEN "same-package-twice" ELSE IF Len(PkgPath(s.exports[1].at)) = Len(PkgPath(s.exports[2].at)) THEN "two-packages-equal-depth" ELSE "two-depths")
              ELSE (IF BoundName(s.exports[1]) = BoundName(s.exports[2]) THEN "two-declarations-one-name" ELSE "two-declarations-one-package"))
-            \o ":" \o s.kind \o (IF s.variant = "samemodule" THEN ":same-module-name" ELSE IF s.variant = "suffixalias" THEN ":name-is-suffix-of-aliased-name" ELSE IF s.variant = "stdlibname" THEN ":module-named-like-imported-stdlib-module" ELSE IF s.variant = "exccls" THEN ":exception-class" ELSE IF s.variant = "pkgmodreexp" THEN ":package-file-re-exported-as-module" ELSE IF s.variant = "privreexp" THEN ":re-exported-by-private-package" ELSE IF s.variant = "samenameboth" THEN ":same-name-in-two-private-modules" ELSE IF s.variant = "pkgnamed" THEN ":package-named-like-its-re-export" ELSE "")
+            \o ":" \o s.kind \o (IF s.variant = "samemodule" THEN ":same-module-name" ELSE IF s.variant = "suffixalias" THEN ":name-is-suffix-of-aliased-name" ELSE IF s.variant = "stdlibname" THEN ":module-named-like-imported-stdlib-module" ELSE IF s.variant = "exccls" THEN ":exception-class" ELSE IF s.variant = "pkgmodreexp" THEN ":package-file-re-exported-as-module" ELSE IF s.variant = "privreexp" THEN ":re-exported-by-private-package" ELSE IF s.variant = "samenameboth" THEN ":same-name-in-two-private-modules" ELSE IF s.variant = "pkgnamed" THEN ":package-named-like-its-re-export" ELSE IF s.variant = "privpkginit" THEN ":declared-in-private-package-file" ELSE IF s.variant = "privpkgtop" THEN ":declared-in-private-package-file-beside-re-exporter" ELSE "")
 Emit == pc = "done" => PrintT(ToJson([kind |-> sc.kind, exports |-> sc.exports, variant |-> sc.variant, shape |-> Shape(sc)]))     \* shape: the signature of the scenario, for run-level judgements
 
 (* obs = [decls: Seq of [tgt, occs: Seq [home, name]]] *)
@@ -138,7 +143,7 @@ Judge(s, obs) ==
              ELSE
              (IF n = 0 THEN { [property |-> "C03", clause |-> "ExactlyOnce", sig |-> "u2:dropped:" \o Shape(s), expected |-> "1", observed |-> "0"] } ELSE {})
              \cup (IF n > 1 THEN { [property |-> "C03", clause |-> "ExactlyOnce", sig |-> "u2:duplicated:" \o Shape(s), expected |-> "1", observed |-> ToString(n)] } ELSE {})
-             \cup (IF s.variant \in {"distinct", "samemodule", "initdecl", "sharedbase", "suffixalias", "stdlibname", "exccls", "pkgmodreexp", "newtype", "privreexp", "genericattr", "samenameboth", "pkgnamed"} /\ n = 1 /\ d.occs[1].home \notin AllowedHomes(s, d.tgt) THEN { [property |-> "C03", clause |-> "Home", sig |-> "u2:" \o Shape(s), expected |-> ToString(AllowedHomes(s, d.tgt)), observed |-> ToString(d.occs[1].home)] } ELSE {})
-             \cup (IF s.variant \in {"distinct", "samemodule", "initdecl", "sharedbase", "suffixalias", "stdlibname", "exccls", "pkgmodreexp", "newtype", "privreexp", "genericattr", "samenameboth", "pkgnamed"} /\ n = 1 /\ d.occs[1].name \notin AllowedNames(s, d.tgt) THEN { [property |-> "C03", clause |-> "Name", sig |-> "u2:" \o Shape(s), expected |-> ToString(AllowedNames(s, d.tgt)), observed |-> d.occs[1].name] } ELSE {})
+             \cup (IF s.variant \in {"distinct", "samemodule", "initdecl", "sharedbase", "suffixalias", "stdlibname", "exccls", "pkgmodreexp", "newtype", "privreexp", "genericattr", "samenameboth", "pkgnamed", "privpkginit", "privpkgtop"} /\ n = 1 /\ d.occs[1].home \notin AllowedHomes(s, d.tgt) THEN { [property |-> "C03", clause |-> "Home", sig |-> "u2:" \o Shape(s), expected |-> ToString(AllowedHomes(s, d.tgt)), observed |-> ToString(d.occs[1].home)] } ELSE {})
+             \cup (IF s.variant \in {"distinct", "samemodule", "initdecl", "sharedbase", "suffixalias", "stdlibname", "exccls", "pkgmodreexp", "newtype", "privreexp", "genericattr", "samenameboth", "pkgnamed", "privpkginit", "privpkgtop"} /\ n = 1 /\ d.occs[1].name \notin AllowedNames(s, d.tgt) THEN { [property |-> "C03", clause |-> "Name", sig |-> "u2:" \o Shape(s), expected |-> ToString(AllowedNames(s, d.tgt)), observed |-> d.occs[1].name] } ELSE {})
         : j \in 1..Len(obs.decls) }
 =============================================================================
